@@ -20,6 +20,11 @@ CHECKS = {
    level_text='Seeded schedules place bursts of APPEND/STORE/EXPUNGE/COPY/MOVE by 1-2 writers at every parking point of 1-2 idling sessions, including while the idler is blocked in drain() writing a previous notification; after the burst the loop runs until nothing is runnable and TLC checks on the recorded execution that every change made since "+ idling" (message added, removed, flags changed) has reached the idling client with no further stimulus, that pushed data obeys the C01 clauses, that DONE ends IDLE with OK and anything else with BAD.',
    level_note='Safety encoding of the liveness property (no-task-runnable in virtual time = "finitely many scheduler steps, no later activity"). Trusted: TLC, strict response parser, the driver-owned loop. Dict backend only; the maildir polling idle loop is not covered yet.',
    design_ref='DESIGN.md section 7 C16'),
+ 'C17': dict(
+   technique='random checkpoint-interleaved histories of deliveries (APPEND/COPY/MOVE, also with \\Recent in the flag list) with 2-3 sessions selecting, examining, closing and reselecting on the real server, validated by TLC against the \\Recent observer spec Trace_Recent.tla; MailboxSync.tla (RecentOnce invariant) checked by TLC and its behaviours replayed',
+   level_text='Design: TLC checks RecentOnce on MailboxSync.tla (a message\'s \\Recent lives in at most one place: the stored bit or one read-write selection). Code: every recorded execution is judged by TLC against Trace_Recent.tla: at most one read-write selection is ever shown \\Recent on a message; a message that arrived while no read-write selection existed is shown \\Recent to the first read-write selection made afterwards (read-only ones do not consume it); the RECENT count given agrees with the flags seen after a full FETCH; FETCH data received during the session\'s own STORE never changes \\Recent. Arrival time is taken from the store (glass box) so that the order of arrival and selection is exact; where a SELECT is in flight at arrival nothing is demanded.',
+   level_note='Trusted: TLC, strict response parser, glass-box read of the store for arrival instants. A selection = one SELECT/EXAMINE until the next SELECT/CLOSE/logout. Dict backend only; maildir (claim_recent generator defect known from reading) not covered yet. One open known finding (StaleRecentPick) needs a lock acquisition to suspend.',
+   design_ref='DESIGN.md section 7 C17'),
  'C20': dict(
    technique='TLA+ model of asyncio.Lock + the read-write lock checked by TLC; every edge of the state graph replayed on the real lock; recorded executions validated by TLC trace specs',
    level_text='TLC explores every interleaving and one cancellation at any step for 3 tasks x programs of <=2 acquisitions (exclusion, counter exactness, clean at end, deadlock freedom, progress under fairness); every edge of that graph is executed on the real lock object with the full abstract state compared after each step, and every recorded execution (replays + seeded random walks) is judged by TLC against the observer spec whose guards are the clauses of the property.',
